@@ -116,6 +116,21 @@ static std::string attrKind(const AttrDescriptor *ad) {
     return "?";
 }
 
+static std::string hexOf(const std::string &t) {
+    static const char *d = "0123456789abcdef";
+    std::string o;
+    for (unsigned char c : t) { o += d[c >> 4]; o += d[c & 15]; }
+    return o;
+}
+// the rule lists of a descriptor: one line per rule, in list order, text in hex (it contains blanks and line breaks)
+static void dumpWhere(const char *tag, const Where_rule__list_var wl) {
+    if (!wl) return;
+    for (int i = 0; i < wl->Count(); i++) {
+        Where_rule_ptr w = (*wl)[i];
+        std::cout << " " << tag << " " << i << " " << (w ? hexOf(w->label_().c_str()) : std::string("NULL")) << "\n";
+    }
+}
+
 static void dumpEntity(const EntityDescriptor *ed) {
     std::cout << "ENTITY " << lower(ed->Name()) << " raw=" << ed->Name() << " abstract=" << L(ed->AbstractEntity());
     std::cout << " super=";
@@ -145,6 +160,23 @@ static void dumpEntity(const EntityDescriptor *ed) {
                   << " for=" << (ia->inverted_attr_id_() ? ia->inverted_attr_id_() : "NULL")
                   << " of=" << (ia->inverted_entity_id_() ? ia->inverted_entity_id_() : "NULL") << "\n";
     }
+    {   // initializer text of the attributes in the DERIVE clause
+        AttrDescItr di(ed->ExplicitAttr());
+        const AttrDescriptor *d;
+        while ((d = di.NextAttrDesc())) {
+            if (d->AttrType() != AttrType_Deriving) continue;
+            Derived_attribute *da = dynamic_cast<Derived_attribute *>(const_cast<AttrDescriptor *>(d));
+            const char *t = da ? da->initializer_() : 0;
+            std::cout << " DI " << d->Name() << " " << (t ? hexOf(t) : std::string("NULL")) << "\n";
+        }
+    }
+    if (ed->_uniqueness_rules) {
+        for (int i = 0; i < ed->_uniqueness_rules->Count(); i++) {
+            Uniqueness_rule_ptr u = (*ed->_uniqueness_rules)[i];
+            std::cout << " UR " << i << " " << (u ? hexOf(u->label_().c_str()) : std::string("NULL")) << "\n";
+        }
+    }
+    dumpWhere("WR", ed->_where_rules);
 }
 
 static void dumpType(const TypeDescriptor *td) {
@@ -175,6 +207,7 @@ static void dumpType(const TypeDescriptor *td) {
         while ((m = it.NextTypeDesc())) { std::cout << (first ? "" : ",") << render(m); first = false; }
     }
     std::cout << "\n";
+    dumpWhere("TWR", td->_where_rules);
 }
 
 static void dumpInstance(Registry &reg, const EntityDescriptor *ed) {
